@@ -4,8 +4,8 @@
    (ns) of at least 1 ms; nothing is bounded.  [cum p x] is the integral of the configured
    rate over the first x ns (Model/Sched.v, written from docs/eng/load-profile.md);
    [count], [at_], [dur] are the formulas of const.go/line.go/do_at.go in exact arithmetic. *)
-From Coq Require Import ZArith QArith Qround List Bool.
-From PV Require Import Model.Sched Proofs.SchedArith Proofs.SchedQ Proofs.SchedProofs Proofs.SchedStep.
+From Coq Require Import String ZArith QArith Qround List Bool.
+From PV Require Import Model.Sched Model.SchedExpr Proofs.SchedArith Proofs.SchedQ Proofs.SchedProofs Proofs.SchedStep Gen.SchedGen Gen.Sched_bridge.
 Import ListNotations.
 Local Open Scope Z_scope.
 
@@ -93,6 +93,27 @@ Theorem C01_once : forall n, valid (POnce n) ->
   drain (POnce n) = Some {| d_left := n; d_tokens := repeat (Some 0) (Z.to_nat n); d_finish := 0 |}.
 Proof. exact once_drain. Qed.
 Print Assumptions C01_once.
+
+(* The formulas of the model are the formulas the source states now: the expressions re-read
+   from NewConst/constDoAt/NewLine (Gen/SchedGen.v) evaluate, for every rate, duration and
+   index, to const_n / const_at / line_a / line_n of Model/Sched.v; lineDoAt is the expression
+   m_line_at whose real-number reading Proofs/SchedReal.v relates to line_at. *)
+Theorem C01_source_formulas :
+  (forall sq ops D, ~ (qz D == 0)%Q ->
+     evalQ sq (env_of [("ops"%string, ops); ("duration"%string, qz D)]) gen_const_n = qz (const_n ops D)) /\
+  (forall sq ops k, ~ (ops == 0)%Q ->
+     evalQ sq (env_of [("ops"%string, ops); ("i"%string, qz k)]) gen_const_at = qz (const_at ops k)) /\
+  (forall sq f t D, ~ (qz D == 0)%Q ->
+     (evalQ sq (env_of [("from"%string, f); ("to"%string, t); ("duration"%string, qz D)]) (nth 0 gen_line_doat_args (Lit 0)) == line_a f t D)%Q) /\
+  (forall sq f t D, ~ (qz D == 0)%Q -> ~ (t - f == 0)%Q ->
+     evalQ sq (env_of [("from"%string, f); ("to"%string, t); ("duration"%string, qz D)]) gen_line_n = qz (line_n f t D)) /\
+  (forall sq env, (forall x y, (x == y)%Q -> (sq x == sq y)%Q) -> ~ (env "a"%string == 0)%Q ->
+     evalQ sq env gen_line_at = evalQ sq env m_line_at).
+Proof.
+  split; [exact bridge_const_n|]. split; [exact bridge_const_at|]. split; [exact bridge_line_a|].
+  split; [exact bridge_line_n|exact bridge_line_at].
+Qed.
+Print Assumptions C01_source_formulas.
 
 (* non-vacuity: the profile of the defect report (0 -> 10 rps over 1.5 s) is valid, has 7
    operations, the last at 1 341 640 786 ns *)
